@@ -298,7 +298,7 @@ void QXmppElement::toXml(QXmlStreamWriter *writer) const
 
     writer->writeStartElement(d->name);
     if (d->attributes.contains(u"xmlns"_s)) {
-        writer->writeDefaultNamespace(d->attributes.value(u"xmlns"_s));
+        writeDefaultNamespaceEscaped(writer, d->attributes.value(u"xmlns"_s));
     }
     std::for_each(d->attributes.keyBegin(), d->attributes.keyEnd(), [this, writer](const QString &key) {
         if (key != u"xmlns") {
